@@ -17,7 +17,8 @@ claim("C01", "generated-input search: typed grammar-directed expression generato
       "Exploration: tens of thousands of generated core-fragment expressions (every construct nested in the others to depth 4, depth 5 in the "
       "thorough tier) over generated bindings are evaluated by the SUT and by an independent reference evaluator written from DMN 1.3; "
       "results compared structurally, numbers numerically; the same text in a differently shaped scope must give the same value. Generated "
-      "dimensions include closures, well-founded recursion, arity errors and bindings named like built-in functions.",
+      "dimensions include closures, well-founded recursion, arity errors, bindings named like built-in functions and entries two or three "
+      "levels below the items of a bound list; the second request writes the same tree with fewer parentheses.",
       "Trusts the reference evaluator pbt/oracles/feel.py; cases the DMN text does not decide are generated but only checked for scope "
       "invariance (counted as 'unspecified'). Open findings are tolerated only when the reference with exactly that deviation switched "
       "on predicts the SUT's value.")
@@ -33,7 +34,8 @@ claim("C10", "generated-input search: name-set generator with prefix families an
       "Exploration: tens of thousands of (name set, expression template, spelling) triples; every bound name is a distinct prime so the "
       "result identifies which names were resolved; expected value computed from the statement's longest-match rule. Further bound names "
       "hold values of other shapes (bystanders), entries of bound contexts are reached by path, names are reused after the construct "
-      "that introduced them.",
+      "that introduced them. Every code point of the grammar's name start / name part ranges is tried as a bound one-character name and "
+      "inside a bound name (sampled with all range ends in the quick tier, all of them in the thorough tier).",
       "Names are bound through public constructors (never through the lexer). Declaration sites (context keys, parameters) whose name has a "
       "bound prefix, and texts where the longest bound name ends inside an intended operand, are generated but not asserted (the "
       "statement does not decide them); counted in evidence classes.")
@@ -56,7 +58,9 @@ claim("C06", "exhaustive enumeration of ordered operator pairs (triples in the t
       "Exploration with exhaustive sub-spaces: every ordered pair of the 44 operator templates in every operand position and every "
       "parenthesis subset, number spellings x contexts, string escapes for sampled (quick) / all (thorough) code points, random trees to "
       "depth 6 and token-preserving layouts; the SUT's tree must equal the reference parser's tree (or both reject), the fully "
-      "parenthesised and the minimal rendering must give back the tree, a dropped needed pair must not.",
+      "parenthesised and the minimal rendering must give back the tree, a dropped needed pair must not. Names bound only by an enclosing "
+      "for / some / every / function / context (unknown to the caller's scope) are used inside further such constructs (exhaustive over "
+      "outer binder x inner binder x use).",
       "Trusts the reference precedence parser in pbt/oracles/feel_syntax.py (transcribed from feel.y's declarations, calibrated against the "
       "pinned tables). Names are single words bound in the parsing scope; type names followed by words and a few words the lexer treats "
       "specially are constructed around and counted.")
